@@ -22,6 +22,7 @@ package main
 import (
 	"fmt"
 	"go/types"
+	"os"
 	"sort"
 	"strings"
 
@@ -246,6 +247,66 @@ func reach(st *State, v AV, leaves map[string]leafInfo, out map[string]bool, see
 	}
 }
 
+// symNames collects the (epoch-free) names of all symbols reachable from v.
+func symNames(st *State, v AV, out map[string]bool, seen map[int]bool) {
+	switch x := v.(type) {
+	case nil:
+	case Sym:
+		out[epochRe.ReplaceAllString(x.Name, "")] = true
+	case Dyn:
+		symNames(st, x.V, out, seen)
+	case Ref:
+		if seen[x.ID] {
+			return
+		}
+		seen[x.ID] = true
+		o := st.heap[x.ID]
+		if o == nil {
+			return
+		}
+		for _, f := range o.Fields {
+			symNames(st, f, out, seen)
+		}
+		for _, e := range o.Elems {
+			symNames(st, e, out, seen)
+		}
+		if o.Val != nil {
+			symNames(st, o.Val, out, seen)
+		}
+	case FieldRef:
+		symNames(st, x.Base, out, seen)
+	case ElemRef:
+		symNames(st, x.Base, out, seen)
+	case StructV:
+		for _, f := range x.Fields {
+			symNames(st, f, out, seen)
+		}
+	case SliceV:
+		for _, e := range x.Elems {
+			symNames(st, e, out, seen)
+		}
+	case Spread:
+		symNames(st, x.V, out, seen)
+	case Tuple:
+		for _, e := range x.Vs {
+			symNames(st, e, out, seen)
+		}
+	case Expr:
+		for _, e := range x.Args {
+			symNames(st, e, out, seen)
+		}
+	case Closure:
+		for _, e := range x.Bind {
+			symNames(st, e, out, seen)
+		}
+	}
+}
+
+// derivedFrom reports whether name denotes base or something loaded from it (base.f, base[i]).
+func derivedFrom(name, base string) bool {
+	return name == base || strings.HasPrefix(name, base+".") || strings.HasPrefix(name, base+"[")
+}
+
 func reachSet(st *State, v AV, leaves map[string]leafInfo) map[string]bool {
 	out := map[string]bool{}
 	reach(st, v, leaves, out, map[int]bool{})
@@ -306,7 +367,7 @@ func (r *rwRT) coverShape(fn *ssa.Function, pos, kind string, in0 *astInput) {
 	r.account(in)
 	construct := in0.desc
 	accepted := 0
-	var fieldBad, deepBad []string
+	var fieldBad, deepBad, lossBad []string
 	var sampleAccept string
 	for _, o := range outs {
 		if o.Panicked {
@@ -378,6 +439,106 @@ func (r *rwRT) coverShape(fn *ssa.Function, pos, kind string, in0 *astInput) {
 				}
 			}
 		}
+		// RW.NOLOSS: every original part is emitted, handed to a self-emitting recursion, or handed
+		// to rewriteBlockStmt whose result is emitted
+		{
+			emittedNames := map[string]bool{}
+			seen := map[int]bool{}
+			accounted := map[string]bool{}
+			for _, e := range o.St.Events {
+				if e.Kind != "call" || e.Fn == nil || !inRw(e.Fn) {
+					continue
+				}
+				if (e.Fn.Name() == "push" || e.Fn.Name() == "pushReturn") && len(e.Args) >= 2 {
+					symNames(o.St, e.Args[1], emittedNames, seen)
+				}
+			}
+			for _, e := range o.St.Events {
+				if e.Kind != "call" || e.Fn == nil || !inRw(e.Fn) {
+					continue
+				}
+				idx, ok := rwVisitFns[e.Fn.Name()]
+				extractor := e.Fn.Name() == "checkYieldCall" || e.Fn.Name() == "isYieldCall" || e.Fn.Name() == "isYieldFromCall"
+				if extractor && len(e.Args) > 0 {
+					// the yield call extracted from a statement stands for the statement's operand
+					idx, ok = len(e.Args)-1, true
+				}
+				if !ok || idx >= len(e.Args) {
+					continue
+				}
+				used := e.Fn.Name() != "rewriteBlockStmt" && !extractor
+				if extractor {
+					start := 0
+					if e.Fn.Signature.Recv() != nil {
+						start = 1
+					}
+					var as []string
+					for _, a := range e.Args[start:] {
+						as = append(as, argLabel(a))
+					}
+					for _, rl := range []string{"call:" + strings.Join(as, ","), argLabel(e.Args[len(e.Args)-1])} {
+						for n := range emittedNames {
+							if derivedFrom(n, rl) {
+								used = true
+							}
+						}
+					}
+				}
+				if !used && e.Ret != nil {
+					rets := []AV{e.Ret}
+					if t, isT := e.Ret.(Tuple); isT {
+						rets = t.Vs
+					}
+					for _, rv := range rets {
+						if _, isSym := unwrapDyn(rv).(Sym); !isSym {
+							continue
+						}
+						rl := argLabel(rv)
+						for n := range emittedNames {
+							if derivedFrom(n, rl) {
+								used = true
+							}
+						}
+					}
+				}
+				if used {
+					names := map[string]bool{}
+					symNames(o.St, e.Args[idx], names, map[int]bool{})
+					for n := range names {
+						for l := range in0.leaves {
+							if derivedFrom(n, l) {
+								accounted[l] = true
+							}
+						}
+					}
+				}
+			}
+			for n := range emittedNames {
+				for l := range in0.leaves {
+					if derivedFrom(n, l) {
+						accounted[l] = true
+					}
+				}
+			}
+			if os.Getenv("VERIF_DEBUG_NOLOSS") != "" {
+				var ns []string
+				for n := range emittedNames {
+					ns = append(ns, n)
+				}
+				sort.Strings(ns)
+				fmt.Fprintf(os.Stderr, "NOLOSS %s emitted=%v\n", construct, ns)
+			}
+			var all []string
+			for l := range in0.leaves {
+				all = append(all, l)
+			}
+			sort.Strings(all)
+			for _, l := range all {
+				if !accounted[l] {
+					lossBad = append(lossBad, fmt.Sprintf("%s (%s) of the source statement does not reach the output on this path: it is neither emitted nor handed to the recursion whose result is emitted: %s", l, in0.leaves[l].what, pathSummary(o)))
+				}
+			}
+		}
 		var ls []string
 		for l := range emitted {
 			ls = append(ls, l)
@@ -415,6 +576,13 @@ func (r *rwRT) coverShape(fn *ssa.Function, pos, kind string, in0 *astInput) {
 			c.bad("RW.FIELDCOV", construct, pos, fieldBad[0], fieldBad...)
 		}
 	}
+	if len(in0.leaves) > 0 && accepted > 0 {
+		if len(lossBad) == 0 {
+			c.ok("RW.NOLOSS", construct, pos, "on every accepting path each part of the source statement (initialiser, condition, post statement, tag, clause lists, bodies, operands) reaches the output: emitted, or rewritten by the recursion whose result is emitted")
+		} else {
+			c.bad("RW.NOLOSS", construct, pos, lossBad[0], lossBad...)
+		}
+	}
 	if hasNested {
 		if len(deepBad) == 0 {
 			c.ok("RW.DEEPVISIT", construct, pos, "every nested statement list that reaches the output went through the rewriter's recursion on its path")
@@ -422,4 +590,11 @@ func (r *rwRT) coverShape(fn *ssa.Function, pos, kind string, in0 *astInput) {
 			c.bad("RW.DEEPVISIT", construct, pos, deepBad[0], deepBad...)
 		}
 	}
+}
+
+func unwrapDyn(a AV) AV {
+	if d, ok := a.(Dyn); ok {
+		return d.V
+	}
+	return a
 }
